@@ -552,6 +552,32 @@ def gen_norms(tier, rng):
                            cmp=close_cmp(prod(shape[1:]) // G + 8, norm_mag(x, w, b, 0)))
 
 
+def gen_eps_forms(tier, rng):
+    """cosine_similarity / pairwise_distance with an EXPLICIT eps (not the default), lazily (the view, evaluated) and eagerly
+    (array::fn): the clamp max(norm, eps) must use the caller's eps - some vector along the axis is non-zero with a norm far
+    below it (seeded change C10-4: the eager wrapper dropped the argument).  Requests answered by the oracle only."""
+    reps = 4 if tier == 'quick' else 16
+    for rep in range(reps):
+        for rank in (2, 3):
+            sa = small_shapes(rng, rank, 4); D = sa[-1]
+            a = reals8(rng, prod(sa)); b = reals8(rng, prod(sa))
+            # the first line along the last axis gets a tiny non-zero norm (multiples of 2^-10)
+            for t in range(D):
+                a[t] = (rng.randint(1, 3) / 1024.0) if t < 2 else 0.0
+            aa, ba = np.array(a).reshape(sa), np.array(b).reshape(sa)
+            axis = rank - 1
+            for eps, etxt in ((0.25, '0.25'), (0.5, '0.5')):
+                out = ref.cosine_similarity(aa, ba, axis, eps)
+                for api in ('view', 'array'):
+                    yield Case('cosine_similarity as=%s a=%s bs=%s b=%s axis=%d eps=%s api=%s' % (fmt(sa), fdata(a), fmt(sa), fdata(b), axis, etxt, api), H_LIN,
+                               oracle=fres(out), model=False, tags=['cosine_similarity', 'explicit-eps', 'api=' + api], cmp=close_cmp(D + 8, 1.0))
+                mag = max(abs(t) for t in a + b) + eps
+                out = ref.pairwise_distance(aa, ba, 2, eps, False)
+                for api in ('view', 'array'):
+                    yield Case('pairwise_distance as=%s a=%s bs=%s b=%s ord=2 eps=%s keepdims=0 api=%s' % (fmt(sa), fdata(a), fmt(sa), fdata(b), etxt, api), H_LIN,
+                               oracle=fres(out), model=False, tags=['pairwise_distance', 'explicit-eps', 'api=' + api], cmp=close_cmp(D + 6, mag * D))
+
+
 def gen_linear(tier, rng):
     reps = 8 if tier == 'quick' else 60
     for rank in (1, 2, 3):
@@ -703,7 +729,7 @@ def gen_witnesses(tier, rng):
 
 def gen(tier, rng):
     only = os.environ.get('C17_ONLY')
-    parts = [('witness', gen_witnesses), ('conv1d', gen_conv1d), ('conv2d', gen_conv2d), ('pool', gen_pool), ('softmax', gen_softmax), ('norms', gen_norms), ('linear', gen_linear)]
+    parts = [('witness', gen_witnesses), ('conv1d', gen_conv1d), ('conv2d', gen_conv2d), ('pool', gen_pool), ('softmax', gen_softmax), ('norms', gen_norms), ('linear', gen_linear), ('eps', gen_eps_forms)]
     for name, g in parts:
         if only and name not in only.split(','):
             continue
